@@ -688,6 +688,11 @@ class MDOFunction:
         args = attributes.pop("args", None)
         if args is not None:
             attributes["input_names"] = args
+        for names in ("input_names", "output_names"):
+            # A single name may have been deserialized as a string.
+            if isinstance(attributes.get(names), str):
+                attributes[names] = [attributes[names]]
+
         for attribute in attributes:
             if attribute not in serializable_attributes:
                 msg = (
